@@ -170,6 +170,10 @@ def gen_selector(rng, shape, want=None, allow_list=False):
         if rng.random() < 0.25:
             # the same well named twice: a list is visited in the order given, so the well is simply visited twice
             cells.insert(rng.randint(0, len(cells)), rng.choice(cells))
+            if nr * nc <= 8 and len(set(cells)) < nr * nc and rng.random() < 0.5:
+                # ... and so often that the list is as long as the plate is large, without covering it
+                while len(cells) < nr * nc:
+                    cells.insert(rng.randint(0, len(cells)), rng.choice(cells))
         return {'k': 'list', 'cells': [list(x) for x in cells], 'forms': [rng.choice(['str', 'tup', 'lab']) for _ in cells]}
     r0 = rng.randint(1, nr)
     r1 = rng.randint(r0, nr)
